@@ -899,6 +899,22 @@ func (e *Env) prelude(name string, n *ast.CallExpr, typeArgs []types.Type, rt ty
 			t = n
 		}
 		return Val{t: t, typ: rt}
+	case "buffersPreserved":
+		{
+			ln, data := tr.bufKeys()
+			c.fresh++
+			r := fmt.Sprintf("r!bp%d", c.fresh)
+			curL, oldL := tr.memGet(e.st, ln), tr.memGet(e.old, ln)
+			curD, oldD := tr.memGet(e.st, data), tr.memGet(e.old, data)
+			if curL == oldL && curD == oldD {
+				return Val{t: "true", typ: B}
+			}
+			return Val{t: fmt.Sprintf("(forall ((%s Int)) (! (=> (< %s %s) (and (= (select %s %s) (select %s %s)) (= (select %s %s) (select %s %s)))) :pattern ((select %s %s)) :pattern ((select %s %s))))",
+				r, r, tr.allocTerm(e.old), curL, r, oldL, r, curD, r, oldD, r, curL, r, curD, r), typ: B}
+		}
+	case "freshArray":
+		a := sx("sl_arr", arg(0).t)
+		return Val{t: and(sx("<=", tr.allocTerm(e.old), a), sx("<", a, tr.allocTerm(e.st)), sx("<", "0", a)), typ: B}
 	case "arrayOf":
 		return Val{t: sx("sl_arr", arg(0).t), typ: rt}
 	case "bufAt":
@@ -1086,6 +1102,9 @@ func (f *Frame) loopEnv(header *ssa.BasicBlock, phiVals map[*ssa.Phi]Val, st *St
 	for phi, v := range phiVals {
 		if phi.Comment != "" {
 			vars[phi.Comment] = v
+		}
+		if phi.Comment == "rangeint.iter" {
+			vars["rangeindex"] = v // `for i := range n`: the loop head is the body, rangeindex is i
 		}
 	}
 	// the range expression of a `for range slice` loop is evaluated once before the loop
